@@ -183,6 +183,12 @@ Ltac upd_tac := unfold upd in *; repeat match goal with
   | |- context [Nat.eqb ?a ?b] => destruct (Nat.eqb_spec a b); subst
   | H : context [Nat.eqb ?a ?b] |- _ => destruct (Nat.eqb_spec a b); subst end.
 
+Arguments sto_id : simpl never.
+Arguments ensure_size : simpl never.
+Arguments czero : simpl never.
+Arguments off_of : simpl never.
+Arguments sto_of : simpl never.
+
 Definition miss_state (x : st) (t s k0 : nat) (a' : ids) : st :=
   let th := thr x t in
   let th' := {| t_alive := t_alive th; t_tid := Some k0; t_cid := sto_id s; t_item := (s, k0) |} in
@@ -208,10 +214,10 @@ Proof.
     + inversion E1; subst. exfalso. eapply Hoth; eauto.
     + inversion E2; subst. exfalso. eapply Hoth; eauto.
     + eapply (i_tid_inj _ I); eauto.
-  - intros u s0. upd_tac; cbn.
-    + intros E. apply sto_id_inj in E. subst. rewrite Nat.eqb_refl. repeat split. apply ensure_gt. exact HB.
+  - intros u s0. unfold upd. destruct (Nat.eqb_spec u t) as [->|Hu]; cbn.
+    + intros E. apply sto_id_inj in E. subst s0. rewrite Nat.eqb_refl. repeat split. apply (ensure_gt (cB cf) (csize x s) k0 HB).
     + intros E. destruct (i_cache _ I _ _ E) as (A & B & C). repeat split; auto.
-      destruct (Nat.eqb_spec s0 s); subst; [|exact C]. pose proof (ensure_ge (cB cf) (csize x s) k0). lia.
+      destruct (Nat.eqb_spec s0 s); [subst s0|exact C]. pose proof (ensure_ge (cB cf) (csize x s) k0). Show. lia.
   - intros s0 k o Hk. apply (i_mem _ I). destruct Hk as [Hk|Hk]; [left; lia|]. right.
     revert Hk. upd_tac; [|auto]. pose proof (ensure_ge (cB cf) (csize x s) k0). lia.
   - intros s0. upd_tac.
